@@ -779,6 +779,20 @@ func (g *overlayGen) paramsFromNode(fi *funcInfo, node ast.Node, withResults boo
 				isImport = true
 			}
 		}
+		if isImport && fi.decl != nil && pos != token.NoPos {
+			// a local (or named result) of that name shadows the package
+			if sc := g.p.TypesInfo.Scopes[fi.decl.Type]; sc != nil {
+				inner := sc.Innermost(pos)
+				if inner == nil {
+					inner = sc
+				}
+				if _, obj := inner.LookupParent(name, pos); obj != nil {
+					if v, ok := obj.(*types.Var); ok && v.Parent() != g.p.Types.Scope() {
+						isImport = false
+					}
+				}
+			}
+		}
 		if isImport {
 			continue
 		}
